@@ -46,6 +46,7 @@ Record mstate := {
   gone : list conn;                                     (* clients that closed their socket: they see no further frame *)
   mqsubs : list rid;                                    (* resources with a standing event subscription *)
   thr : nat;                                            (* resetThrottle of the gateway under test (0 = unlimited) *)
+  legacy : list conn;                                   (* connections that negotiated a protocol version before 1.2.1 *)
   single : nat;                                         (* system resets seen since the last quiescent point *)
   pgets : list (nat * rid);                             (* get requests still unanswered (request number, resource) *)
   fetched : list rid;                                   (* resources fetched (get answered with content) under the standing subscription *)
@@ -61,34 +62,34 @@ Record mstate := {
 }.
 
 Definition mstate0 : mstate :=
-  {| clients := []; reqs := []; stream := []; ptrs := []; viols := []; pos := 0; gone := []; mqsubs := []; fetched := []; connsubs := []; settled_gone := []; accreq := []; lastacc := []; reqpos := []; resetting := []; due := []; task_open := None; qexpect := []; pgets := []; thr := 0; single := 0 |}.
+  {| clients := []; reqs := []; stream := []; ptrs := []; viols := []; pos := 0; gone := []; mqsubs := []; fetched := []; connsubs := []; settled_gone := []; accreq := []; lastacc := []; reqpos := []; resetting := []; due := []; task_open := None; qexpect := []; pgets := []; thr := 0; single := 0; legacy := [] |}.
 
 Definition get_client (st : mstate) (c : conn) : client :=
   match lookup c (clients st) with Some cl => cl | None => client0 end.
 
 Definition set_client (st : mstate) (c : conn) (cl : client) : mstate :=
-  {| clients := set_k c cl (clients st); reqs := reqs st; stream := stream st; ptrs := ptrs st; viols := viols st; pos := pos st; gone := gone st; mqsubs := mqsubs st; fetched := fetched st; connsubs := connsubs st; settled_gone := settled_gone st; accreq := accreq st; lastacc := lastacc st; reqpos := reqpos st; resetting := resetting st; due := due st; task_open := task_open st; qexpect := qexpect st; pgets := pgets st; thr := thr st; single := single st |}.
+  {| clients := set_k c cl (clients st); reqs := reqs st; stream := stream st; ptrs := ptrs st; viols := viols st; pos := pos st; gone := gone st; mqsubs := mqsubs st; fetched := fetched st; connsubs := connsubs st; settled_gone := settled_gone st; accreq := accreq st; lastacc := lastacc st; reqpos := reqpos st; resetting := resetting st; due := due st; task_open := task_open st; qexpect := qexpect st; pgets := pgets st; thr := thr st; single := single st; legacy := legacy st |}.
 
 Definition add_viol (st : mstate) (k : vkind) (c : conn) (r : rid) : mstate :=
   {| clients := clients st; reqs := reqs st; stream := stream st; ptrs := ptrs st;
-     viols := viols st ++ [{| v_kind := k; v_c := c; v_r := r; v_pos := pos st |}]; pos := pos st; gone := gone st; mqsubs := mqsubs st; fetched := fetched st; connsubs := connsubs st; settled_gone := settled_gone st; accreq := accreq st; lastacc := lastacc st; reqpos := reqpos st; resetting := resetting st; due := due st; task_open := task_open st; qexpect := qexpect st; pgets := pgets st; thr := thr st; single := single st |}.
+     viols := viols st ++ [{| v_kind := k; v_c := c; v_r := r; v_pos := pos st |}]; pos := pos st; gone := gone st; mqsubs := mqsubs st; fetched := fetched st; connsubs := connsubs st; settled_gone := settled_gone st; accreq := accreq st; lastacc := lastacc st; reqpos := reqpos st; resetting := resetting st; due := due st; task_open := task_open st; qexpect := qexpect st; pgets := pgets st; thr := thr st; single := single st; legacy := legacy st |}.
 
 Definition set_reqs (st : mstate) (q : list (conn * (nat * (rkind * rid * Z)))) : mstate :=
-  {| clients := clients st; reqs := q; stream := stream st; ptrs := ptrs st; viols := viols st; pos := pos st; gone := gone st; mqsubs := mqsubs st; fetched := fetched st; connsubs := connsubs st; settled_gone := settled_gone st; accreq := accreq st; lastacc := lastacc st; reqpos := reqpos st; resetting := resetting st; due := due st; task_open := task_open st; qexpect := qexpect st; pgets := pgets st; thr := thr st; single := single st |}.
+  {| clients := clients st; reqs := q; stream := stream st; ptrs := ptrs st; viols := viols st; pos := pos st; gone := gone st; mqsubs := mqsubs st; fetched := fetched st; connsubs := connsubs st; settled_gone := settled_gone st; accreq := accreq st; lastacc := lastacc st; reqpos := reqpos st; resetting := resetting st; due := due st; task_open := task_open st; qexpect := qexpect st; pgets := pgets st; thr := thr st; single := single st; legacy := legacy st |}.
 Definition set_ptrs (st : mstate) (p : list (conn * (rid * list nat))) : mstate :=
-  {| clients := clients st; reqs := reqs st; stream := stream st; ptrs := p; viols := viols st; pos := pos st; gone := gone st; mqsubs := mqsubs st; fetched := fetched st; connsubs := connsubs st; settled_gone := settled_gone st; accreq := accreq st; lastacc := lastacc st; reqpos := reqpos st; resetting := resetting st; due := due st; task_open := task_open st; qexpect := qexpect st; pgets := pgets st; thr := thr st; single := single st |}.
+  {| clients := clients st; reqs := reqs st; stream := stream st; ptrs := p; viols := viols st; pos := pos st; gone := gone st; mqsubs := mqsubs st; fetched := fetched st; connsubs := connsubs st; settled_gone := settled_gone st; accreq := accreq st; lastacc := lastacc st; reqpos := reqpos st; resetting := resetting st; due := due st; task_open := task_open st; qexpect := qexpect st; pgets := pgets st; thr := thr st; single := single st; legacy := legacy st |}.
 Definition set_stream (st : mstate) (s : list (rid * list sevent)) : mstate :=
-  {| clients := clients st; reqs := reqs st; stream := s; ptrs := ptrs st; viols := viols st; pos := pos st; gone := gone st; mqsubs := mqsubs st; fetched := fetched st; connsubs := connsubs st; settled_gone := settled_gone st; accreq := accreq st; lastacc := lastacc st; reqpos := reqpos st; resetting := resetting st; due := due st; task_open := task_open st; qexpect := qexpect st; pgets := pgets st; thr := thr st; single := single st |}.
+  {| clients := clients st; reqs := reqs st; stream := s; ptrs := ptrs st; viols := viols st; pos := pos st; gone := gone st; mqsubs := mqsubs st; fetched := fetched st; connsubs := connsubs st; settled_gone := settled_gone st; accreq := accreq st; lastacc := lastacc st; reqpos := reqpos st; resetting := resetting st; due := due st; task_open := task_open st; qexpect := qexpect st; pgets := pgets st; thr := thr st; single := single st; legacy := legacy st |}.
 Definition bump (st : mstate) : mstate :=
-  {| clients := clients st; reqs := reqs st; stream := stream st; ptrs := ptrs st; viols := viols st; pos := S (pos st); gone := gone st; mqsubs := mqsubs st; fetched := fetched st; connsubs := connsubs st; settled_gone := settled_gone st; accreq := accreq st; lastacc := lastacc st; reqpos := reqpos st; resetting := resetting st; due := due st; task_open := task_open st; qexpect := qexpect st; pgets := pgets st; thr := thr st; single := single st |}.
+  {| clients := clients st; reqs := reqs st; stream := stream st; ptrs := ptrs st; viols := viols st; pos := S (pos st); gone := gone st; mqsubs := mqsubs st; fetched := fetched st; connsubs := connsubs st; settled_gone := settled_gone st; accreq := accreq st; lastacc := lastacc st; reqpos := reqpos st; resetting := resetting st; due := due st; task_open := task_open st; qexpect := qexpect st; pgets := pgets st; thr := thr st; single := single st; legacy := legacy st |}.
 
 Definition set_acc (st : mstate) (ar : list (nat * (conn * rid))) (la : list (conn * (rid * option nat))) : mstate :=
   {| clients := clients st; reqs := reqs st; stream := stream st; ptrs := ptrs st; viols := viols st; pos := pos st;
-     gone := gone st; mqsubs := mqsubs st; fetched := fetched st; connsubs := connsubs st; settled_gone := settled_gone st; accreq := ar; lastacc := la; reqpos := reqpos st; resetting := resetting st; due := due st; task_open := task_open st; qexpect := qexpect st; pgets := pgets st; thr := thr st; single := single st |}.
+     gone := gone st; mqsubs := mqsubs st; fetched := fetched st; connsubs := connsubs st; settled_gone := settled_gone st; accreq := ar; lastacc := la; reqpos := reqpos st; resetting := resetting st; due := due st; task_open := task_open st; qexpect := qexpect st; pgets := pgets st; thr := thr st; single := single st; legacy := legacy st |}.
 Definition set_reqpos (st : mstate) (rp : list (conn * (nat * nat))) : mstate :=
   {| clients := clients st; reqs := reqs st; stream := stream st; ptrs := ptrs st; viols := viols st; pos := pos st;
      gone := gone st; mqsubs := mqsubs st; fetched := fetched st; connsubs := connsubs st; settled_gone := settled_gone st;
-     accreq := accreq st; lastacc := lastacc st; reqpos := rp; resetting := resetting st; due := due st; task_open := task_open st; qexpect := qexpect st; pgets := pgets st; thr := thr st; single := single st |}.
+     accreq := accreq st; lastacc := lastacc st; reqpos := rp; resetting := resetting st; due := due st; task_open := task_open st; qexpect := qexpect st; pgets := pgets st; thr := thr st; single := single st; legacy := legacy st |}.
 
 Definition stream_of (st : mstate) (r : rid) : list sevent :=
   match lookup r (stream st) with Some s => s | None => [] end.
@@ -139,6 +140,18 @@ Fixpoint skip_marks (s : list sevent) (p : nat) (fuel : nat) : nat :=
   | S f => match nth_error s p with Some (SReaccess | SSkipped | SResetEnd | SMark | SNop) => skip_marks s (S p) f | _ => p end
   end.
 
+(* the encoding of protocol versions before 1.2.1: a soft reference is a bare resource id string, a data value the
+   placeholder "[Data]" *)
+Definition enc_legacy (v : cvalue) : cvalue :=
+  match v with CS r => CLS r | CD _ => CLD | v => v end.
+Definition enc_for (lg : bool) (v : cvalue) : cvalue := if lg then enc_legacy v else v.
+Definition enc_ev (lg : bool) (e : sevent) : sevent :=
+  match e with
+  | SChange ch => SChange (map (fun kv => (fst kv, enc_for lg (snd kv))) ch)
+  | SAdd i v => SAdd i (enc_for lg v)
+  | e => e
+  end.
+
 Definition ev_match (s d : sevent) : bool :=
   match s, d with
   | SChange a, SChange b =>
@@ -167,7 +180,7 @@ Definition deliver (st : mstate) (c : conn) (r : rid) (d : sevent) : mstate :=
             let p' := skip_reaccess s p (length s) in
             match nth_error s p' with
             | Some SResetEnd => (if is_state then [p'] else []) ++ adv f (S p')   (* a derived event, or move past the marker *)
-            | Some e => if ev_match e d then [S p'] else []
+            | Some e => if ev_match (enc_ev (mem c (legacy st)) e) d then [S p'] else []
             | None => []
             end
         end in
@@ -211,7 +224,7 @@ Definition check_served_hook (st : mstate) (c : conn) (rs : rset) : mstate :=
                                else {| clients := clients s; reqs := reqs s; stream := stream s; ptrs := ptrs s;
                                        viols := viols s ++ [{| v_kind := VServedUnsubscribed; v_c := c; v_r := fst x; v_pos := pos s |}];
                                        pos := pos s; gone := gone s; mqsubs := mqsubs s; fetched := fetched s;
-                                       connsubs := connsubs s; settled_gone := settled_gone s; accreq := accreq s; lastacc := lastacc s; reqpos := reqpos s; resetting := resetting s; due := due s; task_open := task_open s; qexpect := qexpect s; pgets := pgets s; thr := thr s; single := single s |}
+                                       connsubs := connsubs s; settled_gone := settled_gone s; accreq := accreq s; lastacc := lastacc s; reqpos := reqpos s; resetting := resetting s; due := due s; task_open := task_open s; qexpect := qexpect s; pgets := pgets s; thr := thr s; single := single s; legacy := legacy s |}
                         end) rs st.
 
 Definition merge_into (st : mstate) (c : conn) (rs : rset) : mstate :=
@@ -304,28 +317,31 @@ Definition frame_conn (e : tev) : option conn :=
   end.
 
 Definition set_gone (st : mstate) (c : conn) : mstate :=
-  {| clients := clients st; reqs := reqs st; stream := stream st; ptrs := ptrs st; viols := viols st; pos := pos st; gone := c :: gone st; mqsubs := mqsubs st; fetched := fetched st; connsubs := connsubs st; settled_gone := settled_gone st; accreq := accreq st; lastacc := lastacc st; reqpos := reqpos st; resetting := resetting st; due := due st; task_open := task_open st; qexpect := qexpect st; pgets := pgets st; thr := thr st; single := single st |}.
+  {| clients := clients st; reqs := reqs st; stream := stream st; ptrs := ptrs st; viols := viols st; pos := pos st; gone := c :: gone st; mqsubs := mqsubs st; fetched := fetched st; connsubs := connsubs st; settled_gone := settled_gone st; accreq := accreq st; lastacc := lastacc st; reqpos := reqpos st; resetting := resetting st; due := due st; task_open := task_open st; qexpect := qexpect st; pgets := pgets st; thr := thr st; single := single st; legacy := legacy st |}.
 
 Definition set_cache (st : mstate) (ms fs : list rid) : mstate :=
   {| clients := clients st; reqs := reqs st; stream := stream st; ptrs := ptrs st; viols := viols st; pos := pos st;
-     gone := gone st; mqsubs := ms; fetched := fs; connsubs := connsubs st; settled_gone := settled_gone st; accreq := accreq st; lastacc := lastacc st; reqpos := reqpos st; resetting := resetting st; due := due st; task_open := task_open st; qexpect := qexpect st; pgets := pgets st; thr := thr st; single := single st |}.
+     gone := gone st; mqsubs := ms; fetched := fs; connsubs := connsubs st; settled_gone := settled_gone st; accreq := accreq st; lastacc := lastacc st; reqpos := reqpos st; resetting := resetting st; due := due st; task_open := task_open st; qexpect := qexpect st; pgets := pgets st; thr := thr st; single := single st; legacy := legacy st |}.
 Definition set_conns (st : mstate) (cs sg : list conn) : mstate :=
   {| clients := clients st; reqs := reqs st; stream := stream st; ptrs := ptrs st; viols := viols st; pos := pos st;
-     gone := gone st; mqsubs := mqsubs st; fetched := fetched st; connsubs := cs; settled_gone := sg; accreq := accreq st; lastacc := lastacc st; reqpos := reqpos st; resetting := resetting st; due := due st; task_open := task_open st; qexpect := qexpect st; pgets := pgets st; thr := thr st; single := single st |}.
+     gone := gone st; mqsubs := mqsubs st; fetched := fetched st; connsubs := cs; settled_gone := sg; accreq := accreq st; lastacc := lastacc st; reqpos := reqpos st; resetting := resetting st; due := due st; task_open := task_open st; qexpect := qexpect st; pgets := pgets st; thr := thr st; single := single st; legacy := legacy st |}.
 Definition set_reset (st : mstate) (rs : list (rid * option nat)) (du : list rid) (tk : option rid) : mstate :=
   {| clients := clients st; reqs := reqs st; stream := stream st; ptrs := ptrs st; viols := viols st; pos := pos st;
      gone := gone st; mqsubs := mqsubs st; fetched := fetched st; connsubs := connsubs st; settled_gone := settled_gone st;
-     accreq := accreq st; lastacc := lastacc st; reqpos := reqpos st; resetting := rs; due := du; task_open := tk; qexpect := qexpect st; pgets := pgets st; thr := thr st; single := single st |}.
+     accreq := accreq st; lastacc := lastacc st; reqpos := reqpos st; resetting := rs; due := du; task_open := tk; qexpect := qexpect st; pgets := pgets st; thr := thr st; single := single st; legacy := legacy st |}.
 Definition set_qexpect (st : mstate) (q : list (rid * nat)) : mstate :=
   {| clients := clients st; reqs := reqs st; stream := stream st; ptrs := ptrs st; viols := viols st; pos := pos st;
      gone := gone st; mqsubs := mqsubs st; fetched := fetched st; connsubs := connsubs st; settled_gone := settled_gone st;
-     accreq := accreq st; lastacc := lastacc st; reqpos := reqpos st; resetting := resetting st; due := due st; task_open := task_open st; qexpect := q; pgets := pgets st; thr := thr st; single := single st |}.
+     accreq := accreq st; lastacc := lastacc st; reqpos := reqpos st; resetting := resetting st; due := due st; task_open := task_open st; qexpect := q; pgets := pgets st; thr := thr st; single := single st; legacy := legacy st |}.
 
 Definition set_pgets (st : mstate) (p : list (nat * rid)) : mstate :=
-  {| clients := clients st; reqs := reqs st; stream := stream st; ptrs := ptrs st; viols := viols st; pos := pos st; gone := gone st; mqsubs := mqsubs st; fetched := fetched st; connsubs := connsubs st; settled_gone := settled_gone st; accreq := accreq st; lastacc := lastacc st; reqpos := reqpos st; resetting := resetting st; due := due st; task_open := task_open st; qexpect := qexpect st; pgets := p; thr := thr st; single := single st |}.
+  {| clients := clients st; reqs := reqs st; stream := stream st; ptrs := ptrs st; viols := viols st; pos := pos st; gone := gone st; mqsubs := mqsubs st; fetched := fetched st; connsubs := connsubs st; settled_gone := settled_gone st; accreq := accreq st; lastacc := lastacc st; reqpos := reqpos st; resetting := resetting st; due := due st; task_open := task_open st; qexpect := qexpect st; pgets := p; thr := thr st; single := single st; legacy := legacy st |}.
 
 Definition set_thr (st : mstate) (n : nat) (sg : nat) : mstate :=
-  {| clients := clients st; reqs := reqs st; stream := stream st; ptrs := ptrs st; viols := viols st; pos := pos st; gone := gone st; mqsubs := mqsubs st; fetched := fetched st; connsubs := connsubs st; settled_gone := settled_gone st; accreq := accreq st; lastacc := lastacc st; reqpos := reqpos st; resetting := resetting st; due := due st; task_open := task_open st; qexpect := qexpect st; pgets := pgets st; thr := n; single := sg |}.
+  {| clients := clients st; reqs := reqs st; stream := stream st; ptrs := ptrs st; viols := viols st; pos := pos st; gone := gone st; mqsubs := mqsubs st; fetched := fetched st; connsubs := connsubs st; settled_gone := settled_gone st; accreq := accreq st; lastacc := lastacc st; reqpos := reqpos st; resetting := resetting st; due := due st; task_open := task_open st; qexpect := qexpect st; pgets := pgets st; thr := n; single := sg; legacy := legacy st |}.
+
+Definition set_legacy (st : mstate) (l : list conn) : mstate :=
+  {| clients := clients st; reqs := reqs st; stream := stream st; ptrs := ptrs st; viols := viols st; pos := pos st; gone := gone st; mqsubs := mqsubs st; fetched := fetched st; connsubs := connsubs st; settled_gone := settled_gone st; accreq := accreq st; lastacc := lastacc st; reqpos := reqpos st; resetting := resetting st; due := due st; task_open := task_open st; qexpect := qexpect st; pgets := pgets st; thr := thr st; single := single st; legacy := l |}.
 Definition set_resetting (st : mstate) (rs : list (rid * option nat)) : mstate := set_reset st rs (due st) (task_open st).
 Definition remove_rid (r : rid) (l : list rid) : list rid := filter (fun x => negb (Nat.eqb x r)) l.
 
@@ -432,6 +448,7 @@ Definition step (st : mstate) (e : tev) : mstate :=
       (* a processed delete event unregisters the cached resource: a later subscriber fetches it anew *)
       (match ev' with SDelete => set_cache st (mqsubs st) (remove_rid r (fetched st)) | _ => st end)
   | TThrottle n => set_thr st n (single st)
+  | TLegacy c => set_legacy st (c :: filter (fun x => negb (Nat.eqb x c)) (legacy st))
   | TSysReset res _ =>
       (* every subscribed resource matched by the reset gets a mark in its stream; a loaded one is due for a re-fetch *)
       let st := set_thr st (thr st) (S (single st)) in
@@ -454,10 +471,10 @@ Definition step (st : mstate) (e : tev) : mstate :=
                     match d, lookup r truth with
                     | RErr _, _ => s'
                     | RModel m, Some (Some (RModel t)) =>
-                        if forallb (fun kv => match lookup (fst kv) t with Some v => cv_eqb v (snd kv) | None => false end) m
+                        if forallb (fun kv => match lookup (fst kv) t with Some v => cv_eqb (enc_for (mem c (legacy s)) v) (snd kv) | None => false end) m
                            && Nat.eqb (length m) (length t) then s' else add_viol s' VDiverged c r
                     | RColl l, Some (Some (RColl t)) =>
-                        if Nat.eqb (length l) (length t) && forallb (fun p => cv_eqb (fst p) (snd p)) (combine l t)
+                        if Nat.eqb (length l) (length t) && forallb (fun p => cv_eqb (fst p) (enc_for (mem c (legacy s)) (snd p))) (combine l t)
                         then s' else add_viol s' VDiverged c r
                     | _, Some _ => add_viol s' VDiverged c r
                     | _, None => s'     (* not a resource of the mock service *)
